@@ -8,6 +8,8 @@ CONSTANTS
   TolExact = 1000
   TolAlg = 10000
   TolPair = 100000
+  PairPerKf = 10000
+  KfMax = 100000
 CONSTRAINT Diag
 POSTCONDITION TraceAccepted
 CHECK_DEADLOCK FALSE
